@@ -26,7 +26,10 @@ fn in_child(f: impl FnOnce() -> Vec<u8>, watchdog_s: u32, mem_limit: u64) -> Res
         if pid == 0 {
             libc::close(fds[0]);
             if watchdog_s > 0 {
-                libc::alarm(watchdog_s);
+                libc::alarm(watchdog_s.max(120));
+                // CPU seconds rather than wall clock: robust against a loaded machine
+                let rl = libc::rlimit { rlim_cur: watchdog_s as u64, rlim_max: watchdog_s as u64 + 5 };
+                libc::setrlimit(libc::RLIMIT_CPU, &rl);
             }
             if mem_limit > 0 {
                 let rl = libc::rlimit { rlim_cur: mem_limit, rlim_max: mem_limit };
@@ -57,13 +60,15 @@ fn in_child(f: impl FnOnce() -> Vec<u8>, watchdog_s: u32, mem_limit: u64) -> Res
 
 pub fn run_forked(plan: &Plan, want_fired: bool) -> RunResult {
     let p = plan.clone();
+    // hostile-input scenarios: a hang or a giant allocation is itself the violation, so detect it quickly
+    let hostile = scen::find(&plan.scenario).is_some_and(|d| d.died_is_violation);
     match in_child(
         move || {
             let (r, _) = run_plan(&p, false, want_fired);
             serde_json::to_vec(&r).unwrap()
         },
-        120,
-        8 << 30,
+        if hostile { 30 } else { 120 },
+        if hostile { 3 << 30 } else { 8 << 30 },
     ) {
         Ok(b) => serde_json::from_slice(&b).unwrap_or_else(|e| RunResult { seed: plan.seed, died: format!("unparsable child output: {e}"), ..Default::default() }),
         Err(e) => RunResult { seed: plan.seed, plan_hash: plan.hash(), died: e, ..Default::default() },
